@@ -13,4 +13,8 @@ def osub (w a b : Nat) : Nat × Bool := ((a + 2 ^ w - b) % 2 ^ w, decide (a < b)
 def omul (w a b : Nat) : Nat × Bool := ((a * b) % 2 ^ w, decide (2 ^ w ≤ a * b))
 /-- number of leading zero bits of a `w`-bit word -/
 def clz (w a : Nat) : Nat := w - Nat.log2 a - (if a = 0 then 0 else 1)
+/-- iterate `step` (new state, continue?) at most `fuel` times, stopping when it says so -/
+def loop {σ : Type} (step : σ → σ × Bool) : Nat → σ → σ
+  | 0, s => s
+  | fuel + 1, s => if (step s).2 then loop step fuel (step s).1 else (step s).1
 end Rs
